@@ -473,10 +473,18 @@ def build_item(src, spec, idx, log):
             header = _name_return(header, spec.ret)
         text = header + rest
     out = []
+    has_iso = False
     for kind, arg, lines, tline in spec.blocks:
         if kind == 'prefix':
             for l in lines:
+                has_iso = has_iso or 'loop_isolation' in l
                 out.append(GenLine(l, ('spec', idx, 'prefix', arg, tline)))
+    # every extracted function with a loop is verified without loop isolation: what is known before the loop about
+    # variables the loop does not assign stays known inside it, so that a refactoring which hoists a value into a
+    # local ahead of the loop needs no new invariant (false alarm found by the benign-refactoring experiment, cred-2)
+    if it.kind == 'fn' and not has_iso and re.search(r'\b(loop|while|for)\b', _strip_comments(text)):
+        for l in ('#[verifier::loop_isolation(false)]', '#[verifier::allow_complex_invariants]'):
+            out.append(GenLine(spec.indent + l, ('spec', idx, 'prefix', 'auto', 0)))
     for l in text.split('\n'):
         mo = re.search(r'\s*//@@(\d+):(\w+):([^:]*):(\d+)$', l)
         if mo:
@@ -484,6 +492,11 @@ def build_item(src, spec, idx, log):
         else:
             out.append(GenLine(spec.indent + l if l.strip() else l, ('src', idx)))
     return out, it
+
+
+def _strip_comments(text):
+    text = re.sub(r'"(?:[^"\\]|\\.)*"', '""', text)
+    return re.sub(r'//[^\n]*', '', text)
 
 
 def _tag(line, idx, okey):
